@@ -393,6 +393,11 @@ class _Run:
     def close(self):
         for r in self.recs.values():
             r.destroy()
+        # sink nodes of the program (sink(f), sink_to_textfile) are registered in streamz.sinks._global_sinks for good:
+        # let go of them, or every pipeline ever built stays alive for the whole run
+        from streamz.sinks import _global_sinks
+        for n in self.nodes.values():
+            _global_sinks.discard(n)
 
 
 _SKIP = {"upstreams", "downstreams", "loop", "asynchronous", "name", "current_value", "current_metadata", "func",
